@@ -1,8 +1,11 @@
 // Engine `snapshot` (C11): real nflog.Log / silence.Silences snapshots —
 // (a) write → load → compare dumps, (b) the loader on every prefix and
 // single-byte corruption, (c) the system-call order of a real maintenance
-// snapshot (strace), (d) the real loader on every crash state of that order.
-// The Lean driver replays the trace on AM.Snapshot / AM.CrashFS.
+// snapshot (strace: order, open flags, temp names; shutdown and periodic path),
+// (d) the real loader on every crash state of that order, (e) histories: the
+// temp file of an attempt that crashed is left on the disk under the name the
+// real code used, then the REAL code snapshots a smaller state and the result
+// is loaded.  The Lean driver replays the trace on AM.Snapshot / AM.CrashFS.
 package snapshot
 
 import (
@@ -17,6 +20,7 @@ import (
 	"strconv"
 	"strings"
 	"testing"
+	"time"
 
 	"google.golang.org/protobuf/encoding/protowire"
 	"google.golang.org/protobuf/types/known/timestamppb"
@@ -27,18 +31,48 @@ import (
 )
 
 type world struct {
-	k      kindOps
-	mode   string
-	dir    string
-	a, b   store
-	base   []byte
-	absent bool
-	hashA  string
-	hash2  string
-	gen2   string // args of gen2, for the strace child
-	ops    []fsop
-	newB   []byte
-	seq    int
+	k       kindOps
+	mode    string
+	dir     string
+	a, b, c store
+	base    []byte
+	absent  bool
+	hashA   string
+	hash2   string
+	hash3   string
+	gen2    string // args of gen2 / gen3, for the strace child
+	gen3    string
+	ops     []fsop // the last attempt of `ops`
+	newB    []byte
+	ops2    []fsop
+	new2    []byte
+	seq     int
+	suffix  map[string]string // temp token (T1, T2, …) -> the real suffix after the target path
+	tokenOf map[string]string // real suffix -> token
+}
+
+// token names a temp path by the order in which the case first saw it.
+func (w *world) token(suffix string) string {
+	if w.tokenOf == nil {
+		w.tokenOf, w.suffix = map[string]string{}, map[string]string{}
+	}
+	if t, ok := w.tokenOf[suffix]; ok {
+		return t
+	}
+	t := fmt.Sprintf("T%d", len(w.tokenOf)+1)
+	w.tokenOf[suffix], w.suffix[t] = t, suffix
+	return t
+}
+
+// realName is the file name under which a path token is materialised next to the target `nflog`.
+func (w *world) realName(tok string) string {
+	if tok == "F" {
+		return "nflog"
+	}
+	if s, ok := w.suffix[tok]; ok {
+		return "nflog" + s
+	}
+	return "nflog.model-" + tok
 }
 
 func hexOrDash(b []byte) string {
@@ -68,7 +102,7 @@ func (w *world) loadRes(b []byte) (string, store) {
 func (w *world) exec(line string) string {
 	t := strings.Fields(line)
 	switch t[0] {
-	case "gen", "gen2":
+	case "gen", "gen2", "gen3":
 		seed, _ := strconv.ParseUint(t[1], 10, 64)
 		n, _ := strconv.Atoi(t[2])
 		if t[3] == "absent" {
@@ -76,12 +110,18 @@ func (w *world) exec(line string) string {
 			return "- 0"
 		}
 		st := w.k.fresh()
-		exp, _ := st.fill(rand.New(rand.NewPCG(seed, 11)), n, t[3])
+		exp, ok := st.fill(rand.New(rand.NewPCG(seed, 11)), n, t[3])
+		if !ok { // the store refused a record a peer's store wrote (Merge runs the same decodeState as the loader)
+			return exp + " 0"
+		}
 		_, cnt := st.dump()
-		if t[0] == "gen" {
+		switch t[0] {
+		case "gen":
 			w.a = st
-		} else {
+		case "gen2":
 			w.b, w.hash2, w.gen2 = st, exp, strings.Join(t[1:], " ")
+		default:
+			w.c, w.hash3, w.gen3 = st, exp, strings.Join(t[1:], " ")
 		}
 		return fmt.Sprintf("%s %d", exp, cnt)
 	case "snapshot":
@@ -153,17 +193,20 @@ func (w *world) exec(line string) string {
 			return "noctx -"
 		}
 		if t[1] == "strace" {
-			toks, nb, err := w.strace()
+			att, nb, err := w.strace(straceReq{gen: w.gen2, mode: t[2], base: w.base, absent: w.absent})
 			if err != nil {
 				return "strace-failed:" + hx.Hex(err.Error()) + " -"
 			}
 			w.newB = nb
-			w.ops = parseTokens(toks, nb)
-			return toks + " " + hexOrDash(nb)
+			w.ops = nil
+			if len(att) > 0 {
+				w.ops = parseTokens(strings.Join(att[len(att)-1], ","), nb)
+			}
+			return joinAttempts(att) + " " + hexOrDash(nb)
 		}
 		w.newB = w.b.snapshot()
 		var toks []string
-		toks = append(toks, "c:T")
+		toks = append(toks, "c:"+w.token(".model-tmp")+":t")
 		rest := len(w.newB)
 		for _, c := range hx.Split(t[2], ".") {
 			n, _ := strconv.Atoi(c)
@@ -176,10 +219,44 @@ func (w *world) exec(line string) string {
 		if rest > 0 {
 			toks = append(toks, fmt.Sprintf("w:%d", rest))
 		}
-		toks = append(toks, "s", "x", "r:T:F")
+		toks = append(toks, "s", "x", "r:"+w.token(".model-tmp")+":F")
 		s := strings.Join(toks, ",")
 		w.ops = parseTokens(s, w.newB)
 		return s + " " + hexOrDash(w.newB)
+	case "ops2":
+		// the attempt AFTER a crashed one, by a new process (the restarted Alertmanager), traced in a directory
+		// that still holds the temp file of the crashed attempt: all its writes done, nothing synced, no rename
+		if w.c == nil || w.ops == nil {
+			return "noctx -"
+		}
+		left := map[string][]byte{}
+		fs := runOps(w.absent, w.base, w.ops, max(0, len(w.ops)-3)) // before fsync, close, rename
+		for name, id := range fs.dirAt(len(fs.log)) {
+			if name != "F" && id < len(fs.inodes) {
+				left[w.suffix[name]] = fs.inodes[id].data
+			}
+		}
+		att, nb, err := w.strace(straceReq{gen: w.gen3, mode: "shutdown", base: w.base, absent: w.absent, left: left})
+		if err != nil {
+			return "strace-failed:" + hx.Hex(err.Error()) + " -"
+		}
+		w.new2 = w.c.snapshot() // n ≤ 1 record: the serialisation is deterministic
+		w.ops2 = nil
+		if len(att) > 0 {
+			w.ops2 = parseTokens(strings.Join(att[len(att)-1], ","), w.new2)
+		}
+		_ = nb
+		return joinAttempts(att) + " " + hexOrDash(w.new2)
+	case "hcrash":
+		if w.ops == nil || w.c == nil {
+			return "noctx noctx 0"
+		}
+		i, _ := strconv.Atoi(t[1])
+		j, _ := strconv.Atoi(t[2])
+		m, _ := strconv.Atoi(t[3])
+		return w.hcrash(i, j, m)
+	case "hdone":
+		return strconv.Itoa(len(histPoints(w.absent, w.base, w.ops)))
 	case "crash":
 		if w.ops == nil {
 			return "noctx noctx"
@@ -216,11 +293,7 @@ func (w *world) crash(i, j, m int) string {
 			continue
 		}
 		data := fs.inodes[id].crashData(m)
-		fn := "nflog"
-		if name != "F" {
-			fn = "nflog.5577006791947779410"
-		}
-		mustWrite(filepath.Join(d, fn), data)
+		mustWrite(filepath.Join(d, w.realName(name)), data)
 		if name == "F" {
 			content = hexOrDash(data)
 		}
@@ -246,12 +319,100 @@ func (w *world) crash(i, j, m int) string {
 	return content + " other"
 }
 
+// hcrash: the machine crashed at (i, j, m) of the attempt in `ops` and restarted — whatever reached the disk is
+// there, the temp file under the name the real code gave it.  Now the REAL code snapshots the (smaller) state of
+// gen3 over that directory, to completion; the target is read back and loaded by the real loader.
+func (w *world) hcrash(i, j, m int) string {
+	fs := runOps(w.absent, w.base, w.ops, i)
+	w.seq++
+	d := filepath.Join(w.dir, fmt.Sprintf("h%d", w.seq))
+	if err := os.Mkdir(d, 0o755); err != nil {
+		panic(err)
+	}
+	defer os.RemoveAll(d)
+	for name, id := range fs.dirAt(j) {
+		if id < len(fs.inodes) {
+			mustWrite(filepath.Join(d, w.realName(name)), fs.inodes[id].crashData(m))
+		}
+	}
+	target := filepath.Join(d, "nflog")
+	w.c.maintain(target)
+	content := "absent"
+	if b, err := os.ReadFile(target); err == nil {
+		content = hexOrDash(b)
+	}
+	left := 0
+	if es, err := os.ReadDir(d); err == nil {
+		left = len(es)
+	}
+	st, res := load(w.k, nil, target)
+	if res != "ok" {
+		if res == "invalid" {
+			res = "error"
+		}
+		return fmt.Sprintf("%s %s %d", content, res, left)
+	}
+	h, _ := st.dump()
+	oldHash := w.hashA
+	if w.absent {
+		oldHash, _ = w.k.fresh().dump()
+	}
+	cls := "other"
+	switch h {
+	case w.hash3:
+		cls = "new2"
+	case w.hash2:
+		cls = "new1"
+	case oldHash:
+		cls = "old"
+	}
+	return fmt.Sprintf("%s %s %d", content, cls, left)
+}
+
+// histPoints: the crash points of the first attempt that a history case materialises — every (i, j), and of the
+// unsynced byte counts the extremes, the middle and their neighbours.
+func histPoints(absent bool, old []byte, ops []fsop) []crashPt {
+	var out []crashPt
+	for i := 0; i <= len(ops); i++ {
+		fs := runOps(absent, old, ops, i)
+		un := 0
+		for _, n := range fs.inodes {
+			if d := len(n.data) - n.synced; d > un {
+				un = d
+			}
+		}
+		seen := map[int]bool{}
+		for j := 0; j <= len(fs.log); j++ {
+			for _, m := range []int{0, 1, un / 2, un - 1, un} {
+				if m < 0 || m > un || seen[j*(un+2)+m] {
+					continue
+				}
+				seen[j*(un+2)+m] = true
+				out = append(out, crashPt{i, j, m, j == len(fs.log)})
+			}
+		}
+	}
+	return out
+}
+
+func joinAttempts(att [][]string) string {
+	if len(att) == 0 {
+		return "-"
+	}
+	parts := make([]string, len(att))
+	for i, a := range att {
+		parts[i] = strings.Join(a, ",")
+	}
+	return strings.Join(parts, ";")
+}
+
 // ---- the harness's own copy of the crash model (the driver checks it against AM.CrashFS) ----
 
 type fsop struct {
-	kind byte // c w s x r
-	a, b string
-	data []byte
+	kind  byte // c w s x r
+	a, b  string
+	trunc bool
+	data  []byte
 }
 type inode struct {
 	data   []byte
@@ -276,6 +437,7 @@ type fsState struct {
 	dir0   map[string]int
 	log    []dirop
 	fd     int
+	off    int
 }
 
 func (fs *fsState) dirAt(j int) map[string]int {
@@ -310,7 +472,7 @@ func runOps(absent bool, old []byte, ops []fsop, i int) *fsState {
 		switch o.kind {
 		case 'c':
 			if id, ok := fs.dirAt(len(fs.log))[o.a]; ok {
-				if id < len(fs.inodes) {
+				if id < len(fs.inodes) && o.trunc {
 					fs.inodes[id] = inode{}
 				}
 				fs.fd = id
@@ -319,10 +481,18 @@ func runOps(absent bool, old []byte, ops []fsop, i int) *fsState {
 				fs.log = append(fs.log, dirop{link: true, p: o.a, id: len(fs.inodes) - 1})
 				fs.fd = len(fs.inodes) - 1
 			}
+			fs.off = 0
 		case 'w':
 			if fs.fd >= 0 && fs.fd < len(fs.inodes) {
 				n := &fs.inodes[fs.fd]
-				n.data = append(append([]byte(nil), n.data...), o.data...)
+				d := append([]byte(nil), n.data[:min(fs.off, len(n.data))]...)
+				d = append(d, o.data...)
+				if e := fs.off + len(o.data); e < len(n.data) {
+					d = append(d, n.data[e:]...) // written in place: what lies beyond stays
+				}
+				n.data = d
+				n.synced = min(n.synced, fs.off)
+				fs.off += len(o.data)
 			}
 		case 's':
 			if fs.fd >= 0 && fs.fd < len(fs.inodes) {
@@ -367,7 +537,11 @@ func parseTokens(s string, data []byte) []fsop {
 		p := strings.Split(t, ":")
 		switch p[0] {
 		case "c":
-			ops = append(ops, fsop{kind: 'c', a: p[1]})
+			o := fsop{kind: 'c', a: p[1]}
+			if len(p) > 2 {
+				o.trunc = strings.Contains(p[2], "t")
+			}
+			ops = append(ops, o)
 		case "w":
 			n, _ := strconv.Atoi(p[1])
 			if n > len(data) {
@@ -388,8 +562,10 @@ func parseTokens(s string, data []byte) []fsop {
 
 // ---- (c) the system calls of a real maintenance snapshot ----
 
-// TestStraceChild is what runs under strace: fill a store, run the real
-// Maintenance once (stop channel already closed: GC + final snapshot).
+// TestStraceChild is what runs under strace: fill a store and run the real
+// Maintenance — mode shutdown: stop channel already closed (GC + the final
+// snapshot only); mode periodic: the ticker path first (wait until a periodic
+// snapshot has replaced the target), then stop (the final snapshot as well).
 func TestStraceChild(t *testing.T) {
 	dir := os.Getenv("VERIF_STRACE_DIR")
 	if dir == "" {
@@ -401,7 +577,21 @@ func TestStraceChild(t *testing.T) {
 	n, _ := strconv.Atoi(a[1])
 	st := k.fresh()
 	st.fill(rand.New(rand.NewPCG(seed, 11)), n, a[2])
-	st.maintain(filepath.Join(dir, "F"))
+	target := filepath.Join(dir, "F")
+	if os.Getenv("VERIF_STRACE_MODE") != "periodic" {
+		st.maintain(target)
+		return
+	}
+	before, _ := os.Stat(target)
+	stop, done := make(chan struct{}), make(chan struct{})
+	go func() { st.maintainEvery(target, 25*time.Millisecond, stop); close(done) }()
+	for deadline := time.Now().Add(20 * time.Second); time.Now().Before(deadline); time.Sleep(2 * time.Millisecond) {
+		if fi, err := os.Stat(target); err == nil && (before == nil || !os.SameFile(before, fi)) {
+			break
+		}
+	}
+	close(stop)
+	<-done
 }
 
 var (
@@ -411,35 +601,56 @@ var (
 	reStr     = regexp.MustCompile(`"((?:[^"\\]|\\.)*)"`)
 )
 
-func (w *world) strace() (string, []byte, error) {
+type straceReq struct {
+	gen    string            // generator arguments of the state to snapshot
+	mode   string            // shutdown | periodic
+	base   []byte            // the target before the run
+	absent bool              // … or no target
+	left   map[string][]byte // files already lying next to the target: suffix -> content
+}
+
+// strace runs the real Maintenance in a child under strace and returns the
+// file operations on the scratch directory, one token list per snapshot
+// attempt (an attempt starts at each open-for-writing), and the final target.
+func (w *world) strace(req straceReq) ([][]string, []byte, error) {
 	d := filepath.Join(w.dir, fmt.Sprintf("s%d", w.seq))
 	w.seq++
 	if err := os.Mkdir(d, 0o755); err != nil {
-		return "", nil, err
+		return nil, nil, err
 	}
 	defer os.RemoveAll(d)
 	target := filepath.Join(d, "F")
-	if !w.absent {
-		mustWrite(target, w.base)
+	if !req.absent {
+		mustWrite(target, req.base)
+	}
+	for suf, b := range req.left {
+		mustWrite(target+suf, b)
+	}
+	mode := req.mode
+	if mode != "periodic" {
+		mode = "shutdown"
 	}
 	out := filepath.Join(d, "strace.out")
 	cmd := exec.Command("strace", "-f", "-o", out, "-s", "0",
 		"-e", "trace=openat,open,creat,write,pwrite64,writev,fsync,fdatasync,sync_file_range,close,rename,renameat,renameat2,ftruncate,truncate,unlink,unlinkat",
 		os.Args[0], "-test.run", "^TestStraceChild$", "-test.count=1")
-	cmd.Env = append(os.Environ(), "VERIF_STRACE_DIR="+d, "VERIF_STRACE_KIND="+w.k.name, "VERIF_STRACE_GEN="+w.gen2, "VERIF_OUT=", "VERIF_SCRIPT=")
+	cmd.Env = append(os.Environ(), "VERIF_STRACE_DIR="+d, "VERIF_STRACE_KIND="+w.k.name, "VERIF_STRACE_GEN="+req.gen,
+		"VERIF_STRACE_MODE="+mode, "VERIF_OUT=", "VERIF_SCRIPT=")
 	if b, err := cmd.CombinedOutput(); err != nil {
-		return "", nil, fmt.Errorf("%v: %s", err, b)
+		return nil, nil, fmt.Errorf("%v: %s", err, b)
 	}
 	raw, err := os.ReadFile(out)
 	if err != nil {
-		return "", nil, err
+		return nil, nil, err
 	}
 	name := func(p string) string {
 		switch {
 		case p == target:
 			return "F"
+		case p == out:
+			return ""
 		case strings.HasPrefix(p, target+"."):
-			return "T"
+			return w.token(p[len(target):])
 		case strings.HasPrefix(p, d+"/"):
 			return "O"
 		}
@@ -473,20 +684,40 @@ func (w *world) strace() (string, []byte, error) {
 		fdArg = strings.TrimSuffix(strings.SplitN(fdArg, ")", 2)[0], " ")
 		switch call {
 		case "openat", "open", "creat":
-			if len(strs) == 0 || ret < 0 {
+			if len(strs) == 0 {
 				continue
 			}
 			n := name(strs[0][1])
 			if n == "" {
 				continue
 			}
-			if strings.Contains(rest, "O_CREAT") || strings.Contains(rest, "O_TRUNC") || call == "creat" {
-				toks = append(toks, "c:"+n)
-				fds[strconv.Itoa(ret)] = true
-			} else if strings.Contains(rest, "O_WRONLY") || strings.Contains(rest, "O_RDWR") {
-				toks = append(toks, "o:"+n)
-				fds[strconv.Itoa(ret)] = true
+			writing := strings.Contains(rest, "O_WRONLY") || strings.Contains(rest, "O_RDWR") || call == "creat"
+			if !writing {
+				continue
 			}
+			if ret < 0 {
+				toks = append(toks, "openfailed:"+n)
+				continue
+			}
+			fl := ""
+			if strings.Contains(rest, "O_TRUNC") || call == "creat" {
+				fl += "t"
+			}
+			if strings.Contains(rest, "O_EXCL") {
+				fl += "e"
+			}
+			if strings.Contains(rest, "O_APPEND") {
+				fl += "a"
+			}
+			if fl == "" {
+				fl = "-"
+			}
+			if strings.Contains(rest, "O_CREAT") || call == "creat" {
+				toks = append(toks, "c:"+n+":"+fl)
+			} else {
+				toks = append(toks, "o:"+n+":"+fl)
+			}
+			fds[strconv.Itoa(ret)] = true
 		case "write", "pwrite64", "writev":
 			if fds[fdArg] && ret > 0 {
 				toks = append(toks, fmt.Sprintf("w:%d", ret))
@@ -517,11 +748,18 @@ func (w *world) strace() (string, []byte, error) {
 			}
 		}
 	}
+	var att [][]string
+	for _, t := range toks {
+		if strings.HasPrefix(t, "c:") || strings.HasPrefix(t, "o:") || len(att) == 0 {
+			att = append(att, nil)
+		}
+		att[len(att)-1] = append(att[len(att)-1], t)
+	}
 	nb, err := os.ReadFile(target)
 	if err != nil {
 		nb = nil
 	}
-	return hx.Join(toks, ","), nb, nil
+	return att, nb, nil
 }
 
 // ---- hand-made legacy silence file (format before matcher sets, with the old comment list) ----
@@ -704,6 +942,32 @@ func TestEngine(t *testing.T) {
 		})
 	}
 
+	// one record of every size class up to the limit, inflated through each field in turn, arriving as a peer's
+	// state (exact size) or through the store's own write API: whatever the writer emits, the loader must read
+	for ki, kind := range kinds {
+		fields := sizedFields[kind]
+		for ti, target := range sizedTargets(r, hx.Cases(2, 24)) {
+			field := fields[(ti+ki+int(hx.Seed()))%len(fields)]
+			via := []string{"api", "merge"}[(ti+ki)%2]
+			if target == maxRecord {
+				via = "merge" // exactly at the limit: only a peer's state gives the exact size
+			}
+			if via == "api" && target > maxRecord-64 {
+				target = maxRecord - 64 - r.IntN(64) // the write APIs add a few bytes of their own (id, timestamps)
+			}
+			seed := r.Uint64() >> 1
+			n := 1 + r.IntN(3)
+			rel := hx.Pick(r, []string{"reader", "file"})
+			runCase(t, tr, g.header(kind, "rt"), nil, func(w *world, do func(string) string) {
+				if strings.HasPrefix(do(fmt.Sprintf("gen %d %d %s", seed, n, sizedShape(field, target, via))), "mergefail") {
+					return
+				}
+				do("snapshot reader")
+				do("reload " + rel)
+			})
+		}
+	}
+
 	// (b) the loader on every prefix and single-byte corruption of small real snapshots
 	for c := range hx.Cases(8, 60) {
 		kind := kinds[c%2]
@@ -782,16 +1046,49 @@ func TestEngine(t *testing.T) {
 			do("crashdone")
 		})
 	}
+	// (e) a history: attempt 1 (a larger state) crashes at every point and leaves its temp file under the name the
+	// real code gave it; the restarted process — the REAL code — snapshots a smaller state; load the result
+	histCase := func(kind string, oldN, bigN, smallN int) {
+		oldShape := "mix"
+		if oldN < 0 {
+			oldShape, oldN = "absent", 0
+		}
+		s1, s2, s3 := r.Uint64()>>1, r.Uint64()>>1, r.Uint64()>>1
+		bigShape := hx.Pick(r, []string{"mix", "multi"})
+		runCase(t, tr, g.header(kind, "hist"), nil, func(w *world, do func(string) string) {
+			do(fmt.Sprintf("gen %d %d %s", s1, oldN, oldShape))
+			do("snapshot reader")
+			do(fmt.Sprintf("gen2 %d %d %s", s2, bigN, bigShape))
+			do("ops strace shutdown")
+			do(fmt.Sprintf("gen3 %d %d min", s3, smallN))
+			do("ops2 strace")
+			for _, c := range histPoints(w.absent, w.base, w.ops) {
+				do(fmt.Sprintf("hcrash %d %d %d", c.i, c.j, c.m))
+			}
+			do("hdone")
+		})
+	}
 	for _, kind := range kinds {
-		crashCase(kind, "strace", 2, 1+r.IntN(2), "-")
-		crashCase(kind, "strace", -1, 1, "-")
-		crashCase(kind, "strace", 1, 0, "-")
+		histCase(kind, 1, 2+r.IntN(2), 1)
+		histCase(kind, -1, 1+r.IntN(3), r.IntN(2))
+		for range hx.Cases(0, 6) {
+			histCase(kind, r.IntN(4)-1, 1+r.IntN(4), r.IntN(2))
+		}
+	}
+	for _, kind := range kinds {
+		crashCase(kind, "strace", 2, 1+r.IntN(2), "shutdown")
+		crashCase(kind, "strace", -1, 1, "periodic")
+		crashCase(kind, "strace", 1, 0, "shutdown")
+		crashCase(kind, "strace", 1, 1, "periodic")
 		crashCase(kind, "model", 1+r.IntN(2), 1, "-")
 		crashCase(kind, "model", -1, 2, fmt.Sprintf("%d.%d", 1+r.IntN(40), 1+r.IntN(40)))
 		crashCase(kind, "model", 0, 1, fmt.Sprintf("%d", 1+r.IntN(60)))
 		for range hx.Cases(0, 12) {
 			src := hx.Pick(r, []string{"strace", "model"})
 			ch := "-"
+			if src == "strace" {
+				ch = hx.Pick(r, []string{"shutdown", "periodic"})
+			}
 			if src == "model" && r.IntN(2) == 0 {
 				ch = fmt.Sprintf("%d.%d.%d", r.IntN(50), r.IntN(50), r.IntN(50))
 			}
